@@ -13,6 +13,16 @@ ALLOWED_AXIOMS = {
 }
 
 PROPS = {
+    "C12": {
+        "n": {"quick": 800, "thorough": 20000},
+        "shards": 16,
+        "trusted": [
+            "index level: per-file contributions (FileIndex, built by the real BuildFileIndexFromContent) are inputs of the model; the model covers SetFileIndex / RemoveFile / decrementBy / payee-template bookkeeping",
+            "workspace level (UpdateFile, include-tree refresh fix-point, caches) is not modelled: it is checked by the rebuild oracle only (incremental workspace vs fresh workspace with a fresh loader on the files on disk)",
+        ],
+        "assumptions": ["payee templates are compared by key set (a fresh Initialize fills them while ranging over a map)"],
+        "explanation": "C12_counters for all operation sequences; templates refuted; tie on WorkspaceIndex operation sequences; oracle: six view components after every update vs a fresh workspace",
+    },
     "C15": {
         "n": {"quick": 60, "thorough": 1500},
         "shards": 16,
